@@ -22,7 +22,8 @@ StepViol(c, k) ==
       p == PosBefore(c, k)
       file == FileAt(c, k - 1)
       size == Len(file)
-  IN IF st.op = "reset" THEN (IF st.off = 0 /\ ~st.eof THEN {} ELSE {"ResetRewinds"})
+  IN IF st.op \notin {"read", "seek", "reset"} THEN {"ReadReturnsNoError"}       \* "read-error:<text>": Read failed (or panicked) on a healthy file
+     ELSE IF st.op = "reset" THEN (IF st.off = 0 /\ ~st.eof THEN {} ELSE {"ResetRewinds"})
      ELSE IF st.op = "read"
      THEN (IF st.bytes = SubSeq(file, p + 1, p + Len(st.bytes)) THEN {} ELSE {"ReadsEqualPlainReader"})
      \cup (IF Len(st.bytes) = (IF p + st.a <= size THEN st.a ELSE size - p) THEN {} ELSE {"ReadLength"})
